@@ -421,7 +421,7 @@ func ruleEveryPeerErrorFiltered(c *chk.Ctx) {
 	var settle *ssa.Function
 	for _, f := range pkgFuncs(c, c.M.Pkg) {
 		ir.Instrs(f, func(ins ssa.Instruction) {
-			if u, ok := ins.(*ssa.UnOp); ok && u.Op == token.ARROW && chk.LoadsField(u.X, c.M.RCh) {
+			if _, _, ok := slotRecvAt(c, ins); ok {
 				settle = f
 			}
 		})
